@@ -347,6 +347,7 @@ func handleHotRestartAck(s *Session, hdr header, buf []byte) (int, bool, error) 
 		s.listener.hotRestartAckCount--
 		s.state = hotRestartDoneState
 	}
+	verifTrace("LAck", s.listener, s, int64(epochID), int64(s.listener.hotRestartAckCount))
 
 	return headerSize + epochIDLen, false, nil
 }
